@@ -3,6 +3,7 @@
                      defined by a Label element of the same flow (anywhere, reachable or not)
      no_compositeb   no composite element left
      merges_okb      every MergeHeads names the fork uid of a ForkHead of the same flow
+     loop_exits_okb  no Break / Continue is left without the label of its loop
      explore         exhaustive exploration of the head-token semantics of ClosedAst.v from the
                      flow start (worklist + visited set, fuelled; running out of fuel = false):
                      no label lookup fails, no scope is re-opened or unknown, the failure
@@ -38,7 +39,8 @@ Definition step_fn (es : list elem) (c : config) : outcome :=
   | None => match sc with [] => Next [] | _ => Fail (XScopeLeftOpen sc) end
   | Some e =>
     match e with
-    | ELabel _ | EMerge _ | EWait | EPlain _ | EBreak None | EContinue None => Next [next]
+    | ELabel _ | EMerge _ | EWait | EPlain _ => Next [next]
+    | EBreak None | EContinue None => Fail XNoLoopTarget
     | EGoto l c => match jump_to es l sc ct with
                    | None => Fail (XLabel l)
                    | Some t => Next (t :: if c then [next] else [])
@@ -118,15 +120,20 @@ Definition has_fork (es : list elem) (u : string) : bool :=
 Definition merges_okb (es : list elem) : bool :=
   forallb (fun e => match e with EMerge u => has_fork es u | _ => true end) es.
 
+(* every Break / Continue carries the label of its loop (reachable or not) *)
+Definition loop_exits_okb (es : list elem) : bool :=
+  forallb (fun e => match e with EBreak None | EContinue None => false | _ => true end) es.
+
 Definition closedb (es : list elem) : bool :=
-  labels_okb es && no_compositeb es && merges_okb es && scopes_okb es.
+  labels_okb es && no_compositeb es && merges_okb es && loop_exits_okb es && scopes_okb es.
 
 (* diagnosis for replay files *)
-Inductive diag := DClosed | DLabels | DComposite | DMerge | DScope (v : verdict).
+Inductive diag := DClosed | DLabels | DComposite | DMerge | DLoopExit | DScope (v : verdict).
 Definition closed_diag (es : list elem) : diag :=
   if negb (labels_okb es) then DLabels
   else if negb (no_compositeb es) then DComposite
   else if negb (merges_okb es) then DMerge
+  else if negb (loop_exits_okb es) then DLoopExit
   else match scope_verdict es with VOk => DClosed | v => DScope v end.
 
 (* ---- sanity: the shape _expand_when_stmt_element emits for `when E / else` (one case) ---- *)
